@@ -209,6 +209,10 @@ func init() {
 		}
 		return nil
 	}
+	h["vExpectPanic"] = func(e *Engine, st *State, a []Value, in ssa.Instruction) Value {
+		st.expectPanic = e.argString(st, a[0], "vExpectPanic")
+		return nil
+	}
 	h["vTier"] = func(e *Engine, st *State, a []Value, in ssa.Instruction) Value {
 		return e.c64(int64(e.h.tier))
 	}
